@@ -278,6 +278,11 @@ def main(argv=None):
     # --------------------------------------------------------------- main run
     res = Result()
     errors = []
+    # VERIF_FAILFAST=1 (sensitivity tooling only): stop at the first shard with an unlisted failure; the run is
+    # then incomplete, so it writes no evidence and does not judge generator floors
+    failfast = os.environ.get('VERIF_FAILFAST') == '1'
+    if failfast:
+        args.no_evidence = True
     try:
         # committed replays first (regression tier)
         rdir = HERE / 'replays' / pid
@@ -309,6 +314,9 @@ def main(argv=None):
                         res.merge(r)
                     else:
                         errors.append(r)
+                    if failfast and (errors or any(b not in open_buckets for b in res.failures)):
+                        pool.terminate()
+                        break
     except BaseException:
         errors.append(traceback.format_exc())
 
@@ -371,7 +379,7 @@ def main(argv=None):
         print(ln)
     if nviol:
         return 1
-    if starved:
+    if starved and not failfast:
         print(f'HARNESS-ERROR generator starved classes (name, have, need): {starved}')
         return 2
     if res.evaluations < 1 or res.distinct_nontrivial < 2:
